@@ -307,4 +307,12 @@ theorem merge_spec (other : PMap) (mine : PMap) (hk : (keys other).Nodup) (hs : 
       simp [h, lookup, assocGet, this]
 
 
+/-- the loop as it was before the repair (`for k1, v1 := range pm { pm[k1] = v1 }`): the destination's set is overlaid
+    on itself, so a name known to both notifiers keeps only its old targets.  Not part of the model; used for the
+    counterexample in `Props/C17.lean` (it is the seeded regression `seeded/revert-c17-merge`). -/
+def stepMergeOrig (prod : PMap) (e : Name × List (Nat × Int)) : PMap :=
+  match assocGet prod e.1 with
+  | some mine => assocSet prod e.1 (overlay mine mine)
+  | none => assocSet prod e.1 e.2
+
 end Nt
